@@ -102,6 +102,11 @@ class Registry:
         self.globals = {}
         self.hooks = {}
         self.with_hooks = []
+        try:
+            from .grid import GridHook
+            self.hooks['grid'] = GridHook()
+        except ImportError:        # concrete harness: no solver, no symbolic heap
+            pass
 
     def add(self, con):
         if isinstance(con, type):
